@@ -6,7 +6,7 @@ from ..driver import Prop
 class C09(Prop):
     id = 'C09'
     design_ref = 'DESIGN.md section 4 / C09'
-    budgets = {'quick': 200000, 'thorough': 3000000}
+    budgets = {'quick': 200000, 'thorough': 1500000}
 
     def _n_sys(self, tier):
         return poolsim.sys_count(4) if tier == 'thorough' else poolsim.sys_count(3)
